@@ -12,18 +12,10 @@ Mirrors
   and its zero fallback,
 * `vrp-scientific/src/common/routing.rs`: `CoordIndex::collect`, `create_transport`, `SingleDataTransportCost`.
 
-Deviations of the code from the property that the model mirrors (each has a witness theorem in `VrpProofs/C16.lean` and
-a corpus case; the harness tags the corresponding streams `dev`/`in_hyp = false`):
-S28 (matrix name that is no fleet profile ⇒ positional; switch `readerMode`), D1 (lengths are compared through rounded
-square roots: `build`), D2 (no look at equal timestamp keys: `newAware`), D3 (`customIndex` squares the number of distinct
-locations, not the matrix size), S12a (`to ≥ size` addresses another row).
-
-Numbers: matrix entries and matrix timestamps are integers, query times and profile scales are rationals
-(`Rat` is exact; the harness generates only inputs on which the `f64` operations of the code are exact).
-`none` as the result of a query stands for a panic of the real code (`unwrap` on a missing profile, `NoFallback`).
-
-The second half of the file is the **independent specification**: what "the supplied entry", "the bracketing
-matrices", "a consistent matrix set" and "the matrices named `p`" mean, written over the *unsorted* input.
+Repaired in /repo (0684041 square matrices + error codes length, c805ac8 duplicate timestamps, a68e4cc unknown location
+offset, 83519b0 name mixes) and mirrored here: the former deviations D1, D2, D3 and S28 (mixes). What remains outside
+the theorems' hypotheses: a set in which *no* matrix name is a fleet profile is mapped by list position (documented
+positional behaviour, stream `S28u`), and `to ≥ size` addresses another row (S12a, boundary).
 -/
 namespace C16
 
@@ -72,10 +64,12 @@ inductive BuildError where
   | lenMismatch        -- "distance and duration collections have different length"
   | distSize           -- "distance lengths don't match"
   | durSize            -- "duration lengths don't match" (unreachable after the two checks before it)
+  | notSquare          -- "matrix is not square"
   | timedInAgnostic    -- "time aware routing" (unreachable through the builder)
   | agnosticProfiles   -- "duplicate profiles can be passed only for time aware routing"
   | missingTimestamp   -- "time-aware routing requires all matrices to have timestamp"
   | singleTimed        -- "should not use time aware matrix routing with single matrix"
+  | duplicateTimestamp -- "duplicate timestamps for the same profile"
 deriving Repr, DecidableEq
 
 /-- the matrices collected under one profile index, in input order (`collect_group_by_key`) -/
@@ -113,10 +107,17 @@ def newAgnostic (ms : List MatrixData) (size : Nat) : Except BuildError Provider
   else if !indicesAreRange 0 sorted then .error .agnosticProfiles
   else .ok (.agnostic size sorted)
 
+/-- `timestamps.windows(2).any(|pair| pair[0] == pair[1])` -/
+def adjacentEqual : List Nat → Bool
+  | a :: b :: rest => a == b || adjacentEqual (b :: rest)
+  | _ => false
+
 /-- `TimeAwareMatrixTransportCost::new` -/
 def newAware (ms : List MatrixData) (size : Nat) : Except BuildError Provider :=
   if ms.any (fun m => m.timestamp.isNone) then .error .missingTimestamp
   else if ms.any (fun m => (groupOf ms m.index).length == 1) then .error .singleTimed
+  else if ms.any (fun m => adjacentEqual ((sortByKey (groupOf ms m.index)).map MatrixData.key)) then
+    .error .duplicateTimestamp
   else .ok (.aware size ms)
 
 /-- `create_matrix_transport_cost_with_fallback` (the checks in the code's order) -/
@@ -128,6 +129,7 @@ def build (ms : List MatrixData) : Except BuildError Provider :=
     if ms.any (fun m => m.distances.length != m.durations.length) then .error .lenMismatch
     else if ms.any (fun m => sqrtRound m.distances.length != size) then .error .distSize
     else if ms.any (fun m => sqrtRound m.durations.length != size) then .error .durSize
+    else if ms.any (fun m => m.durations.length != size * size) then .error .notSquare
     else if ms.any (fun m => m.timestamp.isSome) then newAware ms size
     else newAgnostic ms size
 
@@ -241,10 +243,11 @@ inductive ReaderError where
   | mixedNames        -- "all matrices should have profile set or none of them"
   | timedUnnamed      -- "when timestamp is set, all matrices should have profile set"
   | notEnough         -- "not enough routing matrices specified for fleet profiles defined"
+  | errorCodesLength  -- "error codes and distances have different length"
   | invalidIndex      -- "invalid matrix index: {i}"
   | profileCount      -- "amount of fleet profiles does not match matrix profiles"
-  | unknownName       -- only after fixes/S28.patch: "matrix profile '..' is not defined in fleet profiles"
-  | mixedKnownNames   -- only after fixes/S28-alt.patch: "some matrix profiles are not defined in fleet profiles"
+  | unknownName       -- variant `strict` only: "matrix profile '..' is not defined in fleet profiles"
+  | mixedKnownNames   -- "some matrix profiles are not defined in fleet profiles"
   | build (e : BuildError)
 deriving Repr, DecidableEq
 
@@ -273,6 +276,30 @@ def toMatrixDataAll (profiles : List String) : Nat → List ApiMatrix → Option
     | some d, some ds => some (d :: ds)
     | _, _ => none
 
+/-- one matrix with the length check of the error codes in front (`error_codes.len() != capacity`) -/
+def codesLengthBad (m : ApiMatrix) : Bool :=
+  match m.errorCodes with
+  | some codes => codes.length != m.distances.length
+  | none => false
+
+def toMatrixDataE (profiles : List String) (idx : Nat) (m : ApiMatrix) : Except ReaderError MatrixData :=
+  if codesLengthBad m then .error .errorCodesLength
+  else
+    match toMatrixData profiles idx m with
+    | some d => .ok d
+    | none => .error .invalidIndex
+
+/-- `.collect::<Result<Vec<_>, GenericError>>()`: matrices in order, the first error wins -/
+def toMatrixDataAllE (profiles : List String) : Nat → List ApiMatrix → Except ReaderError (List MatrixData)
+  | _, [] => .ok []
+  | i, m :: rest =>
+    match toMatrixDataE profiles i m with
+    | .error e => .error e
+    | .ok d =>
+      match toMatrixDataAllE profiles (i + 1) rest with
+      | .error e => .error e
+      | .ok ds => .ok (d :: ds)
+
 def distinctCount (xs : List Nat) : Nat := xs.eraseDups.length
 
 /-- every named matrix refers to a fleet profile (the hypothesis S28 is about) -/
@@ -281,9 +308,11 @@ def namesKnown (profiles : List String) (ms : List ApiMatrix) : Bool :=
     | none => true
     | some n => profiles.contains n)
 
-/-- which `create_transport_costs` is modelled: the code as it stands (`positional`: a matrix whose name is not a
-    fleet profile is mapped by its list position, S28), the code after `fixes/S28.patch` (`strict`: such a name is an
-    error), or after `fixes/S28-alt.patch` (`noMix`: fleet profile names and other names must not be mixed) -/
+/-- which `create_transport_costs` is modelled: `noMix` is the code as it stands (since 83519b0: fleet profile names
+    and other names must not be mixed; a set in which *no* name is a fleet profile is mapped by list position like
+    unnamed matrices — documented behaviour, pinned by the repository's `fleet_reader_test` positive case01).
+    `positional` is the code before that commit (any name that is no fleet profile is mapped by its list position, S28;
+    kept as the regression variant the mutant `C16-q` restores), `strict` the rejected alternative `fixes/S28.patch`. -/
 inductive ReaderMode where
   | positional
   | strict
@@ -306,9 +335,9 @@ def createTransportCosts (mode : ReaderMode) (profiles : List String) (ms : List
     let np := (profileIndexMap profiles []).length
     if np > ms.length then .error .notEnough
     else
-      match toMatrixDataAll profiles 0 ms with
-      | none => .error .invalidIndex
-      | some data =>
+      match toMatrixDataAllE profiles 0 ms with
+      | .error e => .error e
+      | .ok data =>
         if np != distinctCount (data.map (·.index)) then .error .profileCount
         else if mode == .noMix && knownCount profiles ms != 0 && knownCount profiles ms != ms.length then
           .error .mixedKnownNames
@@ -318,7 +347,7 @@ def createTransportCosts (mode : ReaderMode) (profiles : List String) (ms : List
           | .ok p => .ok p
 
 /-- which variant of the reader `/repo` currently has (used by the driver only; the theorems cover all three) -/
-def readerMode : ReaderMode := .positional
+def readerMode : ReaderMode := .noMix
 
 /-- a vehicle type as far as routing is concerned: `profile.matrix`, `profile.scale` -/
 structure ApiVehicle where
@@ -349,9 +378,9 @@ def validateRouting (profiles : List String) (vehicles : List ApiVehicle) (maxIn
      if maxIndex + 1 == size && ms.all (fun x => x.distances.length == size * size) then [] else ["E1504"]) ++
   (if vehicles.any (fun v => !profiles.contains v.matrix) then ["E1505"] else [])
 
-/-- `CoordIndex::new`: the index given to the location of custom type `unknown` — the square of the number of
-    *distinct* locations that refer to the matrix (not of the matrix size) -/
-def customIndex (locs : List Nat) : Nat := locs.eraseDups.length * locs.eraseDups.length
+/-- `CoordIndex::new`: the index given to the location of custom type `unknown` — `(max_matrix_index + 1)²`, the
+    first value behind every flat index of the matrix (`max_matrix_index` = the largest referenced index) -/
+def customIndex (locs : List Nat) : Nat := (locs.foldl max 0 + 1) * (locs.foldl max 0 + 1)
 
 /-- `UnknownLocationFallback` for a pair with the unknown location on one side: zero duration and distance -/
 def unknownFallback : Fallback := some (0, 0)
